@@ -106,6 +106,12 @@ fn field_diff(o: &LocaleModel, m: &LocaleModel) -> &'static str {
 
 /// Runs one history; returns the end state (None if the start did not parse or a step panicked).
 pub fn check_history(lr: &LikelyRef, start: &[u8], ops_: &[Op], st: &mut Stats, mode: Count) -> Option<Locale> {
+    let mut out = None;
+    netted(st, || ops::history_case(start, ops_), ops_.len() * 100 + start.len(), |st| out = check_history_inner(lr, start, ops_, st, mode));
+    out
+}
+
+fn check_history_inner(lr: &LikelyRef, start: &[u8], ops_: &[Op], st: &mut Stats, mode: Count) -> Option<Locale> {
     st.eval();
     let case = || ops::history_case(start, ops_);
     let size = ops_.len() * 100 + start.len();
